@@ -25,7 +25,10 @@ STAGES = ["none", "bad_owner_signature", "expired", "missing_link", "unauthorise
           "one_owner_signed_twice_other_not",
           # threshold 2 and only one functionary signed; the second functionary's file is a copy of the first one's link
           # with an additional junk entry under the second functionary's id
-          "threshold_unmet_copy_filed_for_second"]
+          "threshold_unmet_copy_filed_for_second",
+          # the failing step rule is a MATCH whose two sides were recorded with different hash algorithms (nothing in common to
+          # compare) or, for one of them, with no digest at all: unequal descriptions, the artifact stays for the DISALLOW
+          "failing_step_rule_match_other_algorithm", "failing_step_rule_match_without_digest"]
 OUTCOMES = ["exit0", "exit1", "exit2", "exit127", "exit255", "killed", "not_found", "creates", "modifies", "deletes"]
 RULESETS = ["none", "satisfied", "violated_materials", "violated_products", "products_only_create_preexisting",
             "violated_products_named_like_a_step"]
@@ -80,6 +83,8 @@ def build_cell(W, rng, stage, outcome, rs, ninsp, level, keyset=FUNC, random_ext
         build_rules_p = [["MATCH", "*", "WITH", "MATERIALS", "FROM", "no-such-item"], ["REQUIRE", "never-there"]]
     steps = [scen.mk_step("build", thr, [W.kid(ka), W.kid(kb)], [], [["ALLOW", "*"]], build_rules_p),
              scen.mk_step("package", 1, [W.kid(kc)], [], [["MATCH", "*", "WITH", "PRODUCTS", "FROM", "build"], ["ALLOW", "*"]], [["ALLOW", "*"]])]
+    if stage in ("failing_step_rule_match_other_algorithm", "failing_step_rule_match_without_digest"):
+        steps[1]["expected_materials"] = [["MATCH", "*", "WITH", "PRODUCTS", "FROM", "build"], ["DISALLOW", "*"]]
     if stage == "failing_last_step_rule":
         steps[1]["expected_products"] = [["MATCH", "*", "WITH", "PRODUCTS", "FROM", "insp0"], ["DISALLOW", "*"]]
     if stage == "disagreeing_links_third_signer":
@@ -97,6 +102,10 @@ def build_cell(W, rng, stage, outcome, rs, ninsp, level, keyset=FUNC, random_ext
     # links of the inspected layout
     l_build = pipeline.leaf_link("build", 0)
     l_pkg = pipeline.leaf_link("package", 1)
+    if stage == "failing_step_rule_match_other_algorithm":
+        l_pkg["materials"] = {p: {"sha512": "5a" * 64} for p in l_pkg["materials"]}
+    elif stage == "failing_step_rule_match_without_digest":
+        l_pkg["materials"] = {p: {} for p in l_pkg["materials"]}
     links = []   # (filename, req index, post)
     if sub_stage:
         # step "package" of the inspected layout is delegated to kc; its inner layout fails at its own stage
@@ -304,7 +313,7 @@ def main(ctx):
                           "levels": ["top", "delegated"], "cells": ncells}
     return common.finish(
         PROP, ctx.tier, ctx.seed, res, t0=ctx.t0, level="fault_enumeration",
-        rule="complete grid failing stage (21) x inspection outcome (10) x inspection rule set (6) x 1-2 inspections x "
+        rule="complete grid failing stage (23) x inspection outcome (10) x inspection rule set (6) x 1-2 inspections x "
              "{top-level, delegated layout}; every cell is one real in_toto_verify call in a fresh working directory, "
              "observed through the inspection command's own sentinel/snapshot files; every cell is non-trivial and "
              "distinct; thorough repeats the grid with other key types",
